@@ -5,7 +5,11 @@ case = dict(
          removeSystemEventTrigger / fireSystemEvent on a private event type),
   ops  = registrations and removals before firing, interleaved:
            ["add", phase, beh, action]   phase before|during|after
-               beh: "ret" (None) | "val" (a non-Deferred value) | "raise"
+               beh: "ret" (None) | "val" (a non-Deferred value)
+                    | "raise" (an Exception subclass) | "raise:exit" (SystemExit subclass, i.e.
+                      a trigger calling sys.exit()) | "raise:kbi" (KeyboardInterrupt subclass)
+                    | "raise:genexit" (GeneratorExit subclass) | "raise:acancel"
+                      (asyncio.CancelledError subclass) | "raise:base" (direct BaseException subclass)
                     | "dfr" (a Deferred fired later; ignored for during/after)
                     | "dok" / "dbad" (an already fired / failed Deferred)
                action, performed by the trigger when it runs, before it returns:
@@ -32,18 +36,50 @@ META = dict(
     level="exploration",
     technique="reference model of the three-phase event compared with the real execution log after every step: complete enumeration of small trigger sets with every firing order of the before-Deferreds, plus Hypothesis histories of up to 20 registrations",
     level_text="All trigger sets of up to 3 (quick) / 4 (thorough) triggers over 8 kinds, each combined with every single removal (before firing, from inside any trigger, from outside while Deferreds are outstanding at every position) and every firing order of the outstanding before-Deferreds with every single failing one, are enumerated through both the bare _ThreePhaseEvent and the ReactorBase API; random histories of up to 20 registrations with interleaved removals, in-trigger removals/firings and random firing orders go beyond. Not a proof: exhaustive only for the small scope.",
-    level_note="Reference model written from IReactorCore.addSystemEventTrigger's documentation and the statement, trusted. Registering the same (callable, args) twice and registering new triggers while the event is firing are not generated (unspecified). Whether removing an already removed / already run trigger raises ValueError or only warns is not asserted.",
+    level_note="Reference model written from IReactorCore.addSystemEventTrigger's documentation and the statement, trusted. Registering the same (callable, args) twice and registering new triggers while the event is firing are not generated (unspecified). Whether removing an already removed / already run trigger raises ValueError or only warns is not asserted. Triggers raising non-Exception BaseExceptions (SystemExit, KeyboardInterrupt, GeneratorExit, asyncio.CancelledError) are treated like any raising trigger because the handler swallows BaseException on purpose (twisted.logger test_logger uses KeyboardInterrupt).",
     design_ref="§5 C12",
     rule="case = (api, registrations/removals, post-fire steps). non-trivial = at least two before-triggers return Deferreds that are fired in an order different from registration order and at least one removal takes effect; distinct by the whole case.",
 )
 
 PHASES = ("before", "during", "after")
-BEFORE_BEHS = ("ret", "val", "raise", "dfr", "dok", "dbad")
-OTHER_BEHS = ("ret", "val", "raise", "dfr")
+import asyncio
+
+RAISES = ("raise", "raise:exit", "raise:kbi", "raise:genexit", "raise:acancel", "raise:base")
+BEFORE_BEHS = ("ret", "val", "dfr", "dok", "dbad") + RAISES
+OTHER_BEHS = ("ret", "val", "dfr") + RAISES
 
 
 class HarnessFault(Exception):
     pass
+
+
+# "An exception in one trigger does not prevent the others from running": the
+# handler around every trigger deliberately swallows BaseException (its own unit
+# test uses KeyboardInterrupt), so the non-Exception families are in scope too.
+class HarnessExit(SystemExit):
+    pass
+
+
+class HarnessInterrupt(KeyboardInterrupt):
+    pass
+
+
+class HarnessGeneratorExit(GeneratorExit):
+    pass
+
+
+class HarnessAsyncCancelled(asyncio.CancelledError):
+    pass
+
+
+class HarnessBase(BaseException):
+    pass
+
+
+RAISE_CLASS = {"raise": HarnessFault, "raise:exit": HarnessExit, "raise:kbi": HarnessInterrupt,
+               "raise:genexit": HarnessGeneratorExit, "raise:acancel": HarnessAsyncCancelled,
+               "raise:base": HarnessBase}
+HARNESS_EXCEPTIONS = tuple(RAISE_CLASS.values())
 
 
 # ---------------------------------------------------------------------------
@@ -198,8 +234,8 @@ class World:
             return None
         if beh == "val":
             return ("value", t)
-        if beh == "raise":
-            raise HarnessFault(t)
+        if beh in RAISE_CLASS:
+            raise RAISE_CLASS[beh](t)
         if beh == "dok":
             return self.defer.succeed(("value", t))
         if beh == "dbad":
@@ -239,8 +275,8 @@ def _diagnose(w, m, unfired_before_step):
     t = want[k]
     ph = m.trig[t]["phase"]
     prev = want[k - 1] if k else None
-    if prev is not None and m.trig[prev]["beh"] == "raise":
-        return "exception-stopped-later-triggers"
+    if prev is not None and m.trig[prev]["beh"] in RAISE_CLASS:
+        return "exception-stopped-later-triggers" + m.trig[prev]["beh"][5:]
     if ph != "before" and unfired_before_step:
         return "not-continued-after-last-before-deferred"
     return f"trigger-not-run-{ph}"
@@ -258,9 +294,15 @@ def run_case(ctx, case):
     def guarded_call(fn, *a):
         try:
             return fn(*a)
-        except HarnessFault as e:
-            ctx.violation("trigger-exception-propagated", case,
-                          f"exception of trigger {e.args} came out of {fn.__name__}")
+        except HARNESS_EXCEPTIONS as e:
+            kind = next(k for k, c in RAISE_CLASS.items() if type(e) is c)
+            if w.log == m.ran:
+                # nothing was left to run: the statement only protects the *other* triggers
+                ctx.count("exception of the last trigger came out of the firing call (no other trigger affected)")
+                return None
+            ctx.violation("trigger-exception-propagated" + kind[5:], case,
+                          f"{type(e).__name__} of trigger {e.args} came out of {fn.__name__}; "
+                          f"ran {w.log}; triggers {m.trig}")
 
     n_adds = sum(1 for op in case["ops"] if op[0] == "add")
     if n_adds == 0:
@@ -285,8 +327,10 @@ def run_case(ctx, case):
     for tr in m.trig:
         if tr["action"] is not None:
             flags.add("in-trigger " + tr["action"][0] + f" ({tr['phase']})")
-        if tr["beh"] == "raise":
+        if tr["beh"] in RAISE_CLASS:
             flags.add("raising trigger")
+            if tr["beh"] != "raise":
+                flags.add(f"trigger raises a non-Exception BaseException ({tr['beh'][6:]}, {tr['phase']})")
     rem0 = m.effective_removals
     m.fire_event()
     guarded_call(w.fire_event)
@@ -393,6 +437,10 @@ def _small_cases(arg):
         if k:
             for t in range(n):                  # removal from outside while waiting
                 variants.append((base, t))
+        if any(beh == "raise" for ph, beh in kinds):
+            # the family of the raised exception, for the variant without removals
+            for fam in RAISES[1:]:
+                variants.append(([["add", ph, fam if beh == "raise" else beh, None] for ph, beh in kinds], None))
         for ops, mid_rm in variants:
             k_eff = k
             for order in _orders(k_eff):
@@ -420,7 +468,7 @@ def _case_strategy(max_adds):
     add_before = st.tuples(st.just("add"), st.just("before"),
                            st.sampled_from(BEFORE_BEHS + ("dfr", "dfr", "dfr")), action).map(list)
     add_other = st.tuples(st.just("add"), st.sampled_from(["during", "after"]),
-                          st.sampled_from(OTHER_BEHS + ("ret", "raise")), action).map(list)
+                          st.sampled_from(OTHER_BEHS + ("ret", "ret", "raise")), action).map(list)
     rm = st.tuples(st.just("rm"), idx).map(list)
     op = st.one_of(add_before, add_before, add_other, add_other, rm)
     post_step = st.one_of(
@@ -451,7 +499,7 @@ def run(ctx):
                 shard_args.append((api, n, first))
     ctx.extra["exhaustive_scope"] = dict(
         triggers=f"1..{nmax}", kinds=[f"{p}/{b}" for p, b in KINDS],
-        variants="no removal | one removal before firing | trigger a removes trigger b | before-trigger fires an earlier Deferred | one removal from outside at every position while waiting",
+        variants="no removal (raising triggers also with every exception family: SystemExit, KeyboardInterrupt, GeneratorExit, asyncio.CancelledError, BaseException) | one removal before firing | trigger a removes trigger b | before-trigger fires an earlier Deferred | one removal from outside at every position while waiting",
         orders="every firing order of the outstanding Deferreds x (all succeed | exactly one fails)")
     if ctx.thorough:
         ctx.shards(_small_shard, shard_args)
